@@ -545,3 +545,146 @@ Example bundle_border_example :
   fst (compact_key true (A 127 0 3 [])) <> fst (compact_key true (A 128 0 3 [])) /\
   snd (compact_key true (A 0 0 3 [])) = snd (compact_key true (A 128 0 3 [])).
 Proof. split; [intros E; vm_compute in E; discriminate | reflexivity]. Qed.
+
+(* ------------------------------------------------------------------ dimensions_part does not depend on the key order *)
+(* the dimensions argument is a python dict: the same (key, value) pairs inserted in another order are the same
+   address.  dimensions_part sorts the keys (both groups), so the path is the same. *)
+From Coq Require Import Permutation Sorted.
+
+Ltac nlt_hyps := repeat match goal with
+  | H : N.ltb _ _ = true |- _ => apply N.ltb_lt in H
+  | H : N.ltb _ _ = false |- _ => apply N.ltb_ge in H end.
+
+Lemma text_leb_total : forall a b, text_leb a b = true \/ text_leb b a = true.
+Proof.
+  induction a as [|x a IH]; intros [|y b]; cbn [text_leb]; cbv zeta; auto.
+  destruct (N.ltb (N_of_ascii x) (N_of_ascii y)) eqn:E1; destruct (N.ltb (N_of_ascii y) (N_of_ascii x)) eqn:E2; auto.
+Qed.
+
+Lemma text_leb_antisym : forall a b, text_leb a b = true -> text_leb b a = true -> a = b.
+Proof.
+  induction a as [|x a IH]; intros [|y b]; cbn [text_leb]; cbv zeta; intros H1 H2; try discriminate; [reflexivity|].
+  destruct (N.ltb (N_of_ascii x) (N_of_ascii y)) eqn:E1; destruct (N.ltb (N_of_ascii y) (N_of_ascii x)) eqn:E2;
+    try discriminate; nlt_hyps; try (exfalso; lia).
+  assert (E : N_of_ascii x = N_of_ascii y) by lia.
+  apply (f_equal ascii_of_N) in E. rewrite !ascii_N_embedding in E. subst y. f_equal. apply IH; assumption.
+Qed.
+
+Lemma text_leb_trans : forall a b c, text_leb a b = true -> text_leb b c = true -> text_leb a c = true.
+Proof.
+  induction a as [|x a IH]; intros [|y b] [|z c]; cbn [text_leb]; cbv zeta; intros H1 H2; try discriminate; try reflexivity.
+  destruct (N.ltb (N_of_ascii x) (N_of_ascii y)) eqn:E1; destruct (N.ltb (N_of_ascii y) (N_of_ascii x)) eqn:E2;
+    try discriminate;
+    destruct (N.ltb (N_of_ascii y) (N_of_ascii z)) eqn:E3; destruct (N.ltb (N_of_ascii z) (N_of_ascii y)) eqn:E4;
+    try discriminate;
+    destruct (N.ltb (N_of_ascii x) (N_of_ascii z)) eqn:E5; try reflexivity;
+    destruct (N.ltb (N_of_ascii z) (N_of_ascii x)) eqn:E6; nlt_hyps; try (exfalso; lia).
+  eapply IH; eassumption.
+Qed.
+
+Definition tle (a b : text) : Prop := text_leb a b = true.
+
+Lemma insert_sorted_perm : forall k l, Permutation (insert_sorted k l) (k :: l).
+Proof.
+  induction l as [|h r IH]; cbn [insert_sorted]; [apply Permutation_refl|].
+  destruct (text_leb k h); [apply Permutation_refl|].
+  eapply perm_trans; [apply perm_skip; exact IH | apply perm_swap].
+Qed.
+
+Lemma sort_texts_perm : forall l, Permutation (sort_texts l) l.
+Proof.
+  induction l as [|h r IH]; cbn [sort_texts fold_right]; [constructor|]. fold (sort_texts r).
+  eapply perm_trans; [apply insert_sorted_perm | apply perm_skip; exact IH].
+Qed.
+
+Lemma insert_sorted_ss : forall k l, StronglySorted tle l -> StronglySorted tle (insert_sorted k l).
+Proof.
+  induction l as [|h r IH]; intros S; cbn [insert_sorted].
+  - constructor; constructor.
+  - inversion S as [|? ? S' F]; subst. destruct (text_leb k h) eqn:E.
+    + constructor; [exact S|]. constructor; [exact E|].
+      eapply Forall_impl; [|exact F]. intros c Hc. unfold tle in *. eapply text_leb_trans; eassumption.
+    + constructor; [apply IH; exact S'|]. apply Forall_forall. intros c Hc. apply In_insert_sorted in Hc.
+      destruct Hc as [->|Hc].
+      * unfold tle. destruct (text_leb_total k h) as [T|T]; [congruence | exact T].
+      * rewrite Forall_forall in F. apply F. exact Hc.
+Qed.
+
+Lemma sort_texts_ss : forall l, StronglySorted tle (sort_texts l).
+Proof.
+  induction l as [|h r IH]; cbn [sort_texts fold_right]; [constructor|]. apply insert_sorted_ss. exact IH.
+Qed.
+
+Lemma ss_perm_eq : forall l1 l2, StronglySorted tle l1 -> StronglySorted tle l2 -> Permutation l1 l2 -> l1 = l2.
+Proof.
+  induction l1 as [|a l1 IH]; intros [|b l2] S1 S2 P.
+  - reflexivity.
+  - apply Permutation_nil in P. discriminate.
+  - apply Permutation_sym in P. apply Permutation_nil in P. discriminate.
+  - inversion S1 as [|? ? S1' F1]; inversion S2 as [|? ? S2' F2]; subst.
+    assert (Eab : a = b).
+    { assert (Ia : In a (b :: l2)) by (eapply Permutation_in; [exact P | left; reflexivity]).
+      assert (Ib : In b (a :: l1)) by (eapply Permutation_in; [apply Permutation_sym; exact P | left; reflexivity]).
+      destruct Ia as [Ia|Ia]; [symmetry; exact Ia|]. destruct Ib as [Ib|Ib]; [exact Ib|].
+      rewrite Forall_forall in F1, F2. apply text_leb_antisym; [apply F1; exact Ib | apply F2; exact Ia]. }
+    subst b. f_equal. apply IH; try assumption. eapply Permutation_cons_inv; exact P.
+Qed.
+
+Lemma filter_perm : forall (f : text -> bool) l1 l2, Permutation l1 l2 -> Permutation (filter f l1) (filter f l2).
+Proof.
+  intros f l1 l2 P. induction P; cbn [filter].
+  - constructor.
+  - destruct (f x); [apply perm_skip|]; assumption.
+  - destruct (f x); destruct (f y); try apply Permutation_refl. apply perm_swap.
+  - eapply perm_trans; eassumption.
+Qed.
+
+Lemma dim_keys_perm : forall k1 k2, Permutation k1 k2 -> dim_keys k1 = dim_keys k2.
+Proof.
+  intros k1 k2 P. unfold dim_keys.
+  f_equal; apply ss_perm_eq; try apply sort_texts_ss;
+    (eapply perm_trans; [apply sort_texts_perm|]; eapply perm_trans; [apply filter_perm; exact P|];
+     apply Permutation_sym; apply sort_texts_perm).
+Qed.
+
+Lemma dim_get_perm : forall d1 d2, Permutation d1 d2 -> NoDup (map fst d1) -> forall k, dim_get d1 k = dim_get d2 k.
+Proof.
+  intros d1 d2 P. induction P; intros Hn k.
+  - reflexivity.
+  - destruct x as [k' v]. cbn [dim_get]. destruct (text_eqb k' k); [reflexivity|]. apply IHP.
+    cbn [map fst] in Hn. inversion Hn; assumption.
+  - destruct x as [k1 v1], y as [k2 v2]. cbn [dim_get].
+    destruct (text_eqb k2 k) eqn:E2; destruct (text_eqb k1 k) eqn:E1; try reflexivity.
+    apply text_eqb_eq in E1. apply text_eqb_eq in E2. subst k1 k2. cbn [map fst] in Hn.
+    inversion Hn as [|? ? Hnotin _]; subst. exfalso. apply Hnotin. left. reflexivity.
+  - rewrite IHP1 by exact Hn. apply IHP2. eapply Permutation_NoDup; [|exact Hn]. apply Permutation_map. exact P1.
+Qed.
+
+Lemma dims_part_perm : forall d1 d2, Permutation d1 d2 -> NoDup (map fst d1) -> dims_part d1 = dims_part d2.
+Proof.
+  intros d1 d2 P Hn. unfold dims_part.
+  rewrite (dim_keys_perm (map fst d1) (map fst d2)) by (apply Permutation_map; exact P).
+  apply map_ext. intros k. unfold dim_component. rewrite (dim_get_perm d1 d2 P Hn k). reflexivity.
+Qed.
+
+(* every layout function: the key of an address depends on the dimensions as a set of (key, value) pairs *)
+Lemma file_key_perm : forall f ext x y z d1 d2, Permutation d1 d2 -> NoDup (map fst d1) ->
+  file_key f ext (mkAddr x y z d1) = file_key f ext (mkAddr x y z d2).
+Proof.
+  intros f ext x y z d1 d2 P Hn. unfold file_key. cbn [ax ay az adims]. unfold render_path.
+  apply flat_map_ext. intros c. destruct c; cbn [render_comp]; try reflexivity. apply dims_part_perm; assumption.
+Qed.
+
+(* ... and two dimension dicts with the same distinct keys name the same directory only if they are permutations of
+   each other (same values) *)
+Lemma dims_part_same_only_if_perm : forall d1 d2,
+  NoDup (map fst d1) -> Permutation (map fst d1) (map fst d2) -> dims_part d1 = dims_part d2 ->
+  forall k, In k (map fst d1) -> dim_get d1 k = dim_get d2 k.
+Proof.
+  intros d1 d2 Hn P E k Hin. unfold dims_part in E. rewrite <- (dim_keys_perm _ _ P) in E.
+  assert (Hc : dim_component d1 k = dim_component d2 k).
+  { apply In_dim_keys in Hin. revert Hin E. generalize (dim_keys (map fst d1)) as L.
+    induction L as [|h L IHL]; intros Hin E; [destruct Hin|].
+    cbn [map] in E. injection E as E1 E2. destruct Hin as [->|Hin]; [exact E1 | apply IHL; assumption]. }
+  unfold dim_component in Hc. apply esc_inj in Hc. apply app_inv_head in Hc. injection Hc as Hc. exact Hc.
+Qed.
